@@ -221,6 +221,47 @@ example : (sbHeap true true 10 7 10 openHeap [] [10, 11, 12, 13, 14, 15, 16, 17]
 example : (incrHeap 2 10 openHeap [10, 11] 7 0).bind (fun r => readTerm r.1 10 r.2.2)
     = some (.comb (.var "g" (Ty.fn Ty.bool Ty.bool)) (.bound 2)) := by decide
 
+/-! ### the `_id`-keyed cache of `Term.subst` -/
+
+/-- `rec` of `Term.subst` as written — the result of every `Comb` / `Abs` node cached under `t._id`
+alone, a node re-used when its children came back with the same `_id`, instances inserted as the
+objects they are — run in any heap satisfying `IdInv`, with any allocator answers and any right
+cache: if it returns, the pure `substRec` (the replacement step of the kernel model's `Term.subst`,
+about which `subst_wt/sem` speak) succeeds on the represented term and the returned object
+represents its result; invariant and cache stay right, nothing existing is touched.  (The type
+instantiation `subst_type` that precedes `rec` builds a new tree and uses no cache.) -/
+theorem subst_cache_sound (σ : Ty.TyInst) (sv vv : InstH) (fuel : Nat) (h : Heap) (c : Cache1)
+    (as : List Addr) (s : Addr) (ts : Term) (res : Heap × Cache1 × List Addr × Addr)
+    (hi : IdInv h) (hsv : InstOK h sv) (hvv : InstOK h vv) (hc : Cache1OK (instOf σ sv vv) h c)
+    (rs : Repr h s ts) (e : substHeap sv vv fuel h c as s = some res) :
+    IdInv res.1 ∧ (∀ x o, h x = some o → res.1 x = some o) ∧
+    Cache1OK (instOf σ sv vv) res.1 res.2.1 ∧
+    ∃ tr, Term.substRec (instOf σ sv vv) ts = .ok tr ∧ Repr res.1 res.2.2.2 tr :=
+  substHeap_sound σ sv vv fuel h c as s ts res hi hsv hvv hc rs e
+
+/-- `?p ?p` at 2, `q q` at 3, the pair of them at 4; the instance `c` for `?p` at 5 -/
+def substHeapEx (id3 : Addr) : Heap :=
+  (((((Heap.empty.set 0 ⟨.svar "p" Ty.bool, 0⟩).set 1 ⟨.var "q" Ty.bool, 1⟩).set 2 ⟨.comb 0 0, 2⟩).set 3
+    ⟨.comb 1 1, id3⟩).set 4 ⟨.comb 2 3, 4⟩).set 5 ⟨.const "c" Ty.bool, 5⟩
+
+example : (substHeap [("p", 5, .const "c" Ty.bool)] [] 10 (substHeapEx 3) [] [10, 11, 12] 4).bind
+      (fun r => readTerm r.1 10 r.2.2.2)
+    = some (.comb (.comb (.const "c" Ty.bool) (.const "c" Ty.bool)) (.comb (.var "q" Ty.bool) (.var "q" Ty.bool))) := by
+  decide
+
+/-- Why the cache needs `IdInv`: if the object `q q` at 3 carries the stale `_id` 2 of another live
+object (what `Term(t)` produced on the pinned tree), it receives the cached result of `?p ?p`:
+`(c c) (c c)` instead of `(c c) (q q)`. -/
+theorem subst_cache_counterexample :
+    ¬ IdInv (substHeapEx 2) ∧
+    (substHeap [("p", 5, .const "c" Ty.bool)] [] 10 (substHeapEx 2) [] [10, 11, 12] 4).bind
+      (fun r => readTerm r.1 10 r.2.2.2)
+    = some (.comb (.comb (.const "c" Ty.bool) (.const "c" Ty.bool)) (.comb (.const "c" Ty.bool) (.const "c" Ty.bool))) ∧
+    Term.substRec ⟨[], [("p", .const "c" Ty.bool)], []⟩
+      (.comb (.comb (.svar "p" Ty.bool) (.svar "p" Ty.bool)) (.comb (.var "q" Ty.bool) (.var "q" Ty.bool)))
+    = .ok (.comb (.comb (.const "c" Ty.bool) (.const "c" Ty.bool)) (.comb (.var "q" Ty.bool) (.var "q" Ty.bool))) :=
+  ⟨fun hi => absurd (hi 3 _ rfl) (by decide), by decide, by rfl⟩
+
 /-! ### the memoised hash `_hash_val` -/
 
 /-- For every history of constructor calls, `Term(t)` (which copies `_hash_val`), `copy`, frees of
